@@ -714,6 +714,23 @@ pub open spec fn read_copies_accepted(rs: ReadOnlyCache, links: Map<PathV, Inode
     weave_get_or_update(u, INV, BADK)
     weave_builders_stack(u)
     u.text('}\n')
+    # ---- lib.rs: the stock byte-equality checker (C14) ----------------------------------------------
+    u.text('pub mod checkers {\nuse crate::std;\nuse crate::std::fs::File;\nuse crate::std::io::Result;\nuse crate::World;\nuse crate::io_error_new;\nuse vstd::prelude::*;\n')
+    bc = u.under_contract(u.item('src/lib.rs', ['fn byte_equality_checker']), ['C14', 'C15', 'C18'])
+    bc.air = 'checkers::byte_equality_checker'
+    bc.add_param(W)
+    bc.thread(['. read_to_end'])
+    bc.replace('std :: io :: Error :: new', 'io_error_new', 'T2-rebind')
+    REST = lambda f: 'old(w).inodes[old(%s).ino()].content.skip(old(%s).offset() as int)' % (f, f)
+    bc.contract(requires=[('', 'old(w).inv() && old(w).inodes.contains_key(old(x).ino()) && old(w).inodes.contains_key(old(y).ino())')],
+                ensures=[INV, ('', 'final(w).kept(*old(w)) && final(w).listed == old(w).listed && final(w).published == old(w).published'),
+                         ('C15 C14:comparing-only-reads', 'final(w).atime_only(*old(w)) && final(x).ino() == old(x).ino() && final(y).ino() == old(y).ino() '
+                                                          '&& final(x).can_write() == old(x).can_write() && final(y).can_write() == old(y).can_write()'),
+                         ('C14:byte-equality-accepts-only-identical-remaining-bytes', 'r.is_ok() ==> %s == %s' % (REST('x'), REST('y'))),
+                         ('C14 C18:byte-equality-rejects-only-a-difference-or-a-failed-read', 'r.is_err() ==> final(w).hard_faults > old(w).hard_faults || %s != %s' % (REST('x'), REST('y')))])
+    bc.insert_before('if x_contents',
+                     'proof { if x_contents@.len() == y_contents@.len() && (forall|i: int| 0 <= i < x_contents@.len() ==> x_contents@[i] == y_contents@[i]) { assert(x_contents@ =~= y_contents@); } }\n    ')
+    u.text('}\n')
 
 
 def weave_get_or_update(u, INV, BADK):
